@@ -167,6 +167,11 @@ func (ip *Inode) FreeInode(atxn *alloctxn.AllocTxn) {
 func (ip *Inode) Resize(atxn *alloctxn.AllocTxn, sz uint64) bool {
 	var newSz = sz
 	var doshrink = false
+	if sz < ip.Size && sz%disk.BlockSize != 0 {
+		// The block that becomes the last one keeps its bytes beyond sz;
+		// they must read as zero if the file grows again.
+		ip.zeroTail(atxn, sz)
+	}
 	oldsz := util.RoundUp(ip.Size, disk.BlockSize)
 	util.DPrintf(5, "Resize %v to sz %d\n", oldsz, newSz)
 	ip.Size = newSz
@@ -186,6 +191,46 @@ func (ip *Inode) Resize(atxn *alloctxn.AllocTxn, sz uint64) bool {
 		}
 	}
 	return doshrink
+}
+
+// lookup maps logical block number bn to a physical block number without
+// allocating: 0 if there is no block (a hole).
+func (ip *Inode) lookup(atxn *alloctxn.AllocTxn, bn uint64) common.Bnum {
+	if bn < NDIRECT {
+		return ip.blks[bn]
+	}
+	var off = bn - NDIRECT
+	if off < NBLKBLK {
+		return indlookup(atxn, ip.blks[INDIRECT], 1, off)
+	}
+	off -= NBLKBLK
+	return indlookup(atxn, ip.blks[DINDIRECT], 2, off)
+}
+
+func indlookup(atxn *alloctxn.AllocTxn, root common.Bnum, level uint64, off uint64) common.Bnum {
+	if root == common.NULLBNUM || level == 0 {
+		return root
+	}
+	divisor := pow(level - 1)
+	buf := atxn.ReadBlock(root)
+	return indlookup(atxn, buf.BnumGet((off/divisor)*8), level-1, off%divisor)
+}
+
+// zeroTail zeroes the bytes from offset sz to the end of the block that
+// contains sz (if that block exists).
+func (ip *Inode) zeroTail(atxn *alloctxn.AllocTxn, sz uint64) {
+	if sz >= MaxFileSize() {
+		return
+	}
+	blkno := ip.lookup(atxn, sz/disk.BlockSize)
+	if blkno == common.NULLBNUM {
+		return
+	}
+	buf := atxn.ReadBlock(blkno)
+	for i := sz % disk.BlockSize; i < disk.BlockSize; i++ {
+		buf.Data[i] = 0
+	}
+	buf.SetDirty()
 }
 
 // Returns blkno and root index block for off. If blkno is 0, failure.
